@@ -10,16 +10,17 @@ Concrete state = what the C++ keeps (`entries`, `isRosterReceived`, `presences`,
 requests).  The history-level specification (`Ev`, `classify`, `specView`, `specPres`) is defined here too
 (definitions only); the theorems relating both are in `Qx/Props/C12.lean`.  No proofs here.
 
-`Qx/Base/Jid.lean` did not exist when this was written; `bare`/`resource` below are local equivalents of
-`QXmppUtils::jidToBareJid` / `jidToResource` (split at the FIRST '/').
+JID cutting (`bare`, `resource`) is the shared `Qx.Jid` (lean/Qx/Base/Jid.lean): `QXmppUtils::jidToBareJid` /
+`jidToResource`, split at the FIRST '/'.
 -/
+import Qx.Base.Jid
 namespace Qx.C12
 
 /-- `QXmppUtils::jidToBareJid`: everything before the first `/` (the whole string if there is none) -/
-def bare (jid : String) : String := String.ofList (jid.toList.takeWhile (· != '/'))
+abbrev bare (jid : String) : String := Qx.Jid.bare jid
 
 /-- `QXmppUtils::jidToResource`: everything after the first `/` (empty if there is none) -/
-def resource (jid : String) : String := String.ofList ((jid.toList.dropWhile (· != '/')).drop 1)
+abbrev resource (jid : String) : String := Qx.Jid.resource jid
 
 /-- `QXmppRosterIq::Item::SubscriptionType` -/
 inductive Sub | notSet | none_ | both | from_ | to_ | remove
@@ -112,6 +113,8 @@ structure St where
   /-- roster requests awaiting their answer (`OutgoingIqManager::m_requests`, restricted to roster gets) -/
   pending : List Nat := []
   nextReq : Nat := 1
+  /-- `d->inSession`: between `connected()` and the `disconnected()` that ends that session -/
+  inSession : Bool := false
   deriving DecidableEq, Repr
 
 def init : St := {}
@@ -158,14 +161,20 @@ def step (own : String) (s : St) : Op → St × List Out
   | .connected sm auth =>
     -- openSession: `iqManager.onSessionOpened` cancels everything unless the stream was resumed
     -- (the cancelled roster request's continuation sees an error and does nothing), then `connected`
-    let s1 : St := if sm = .resumed then s else { s.cleared with pending := [] }
+    -- `_q_connected`: `d->inSession = true`, clear unless resumed, request the roster if needed
+    let s1 : St := if sm = .resumed then { s with inSession := true }
+                   else { s.cleared with pending := [], inSession := true }
     if !s1.received && auth then
       ({ s1 with pending := s1.pending ++ [s1.nextReq], nextReq := s1.nextReq + 1 }, [.sentGet s1.nextReq])
     else (s1, [])
   | .disconnected smEnabled canResume =>
     -- closeSession: `iqManager.onSessionClosed` first, then `disconnected` reaches `_q_disconnected`
     let s1 : St := if canResume then s else { s with pending := [] }
-    (if smEnabled then s1 else s1.cleared, [])
+    -- `_q_disconnected`: `if (!std::exchange(d->inSession, false)) return;` — a `disconnected` that does not
+    -- end an established session (failed reconnect attempt) touches nothing; otherwise clear iff no SM
+    if !s.inSession then (s1, [])
+    else if smEnabled then ({ s1 with inSession := false }, [])
+    else ({ s1.cleared with inSession := false }, [])
   | .response k sender ok items =>
     if delivered own s k sender then
       let s1 : St := { s with pending := s.pending.erase k }
@@ -228,11 +237,12 @@ def Ev.isPresOf (b r : String) : Ev → Bool
   | .pres b' r' _ _ => b' = b && r' = r
   | _ => false
 
-/-- events as the CODE draws the boundaries: a view ends at a connect that is not a resumption and at a
-`disconnected` signal seen while `streamManagementState()` is `NoStreamManagement` -/
+/-- events as the CODE draws the boundaries: a view ends at a connect that is not a resumption and at the
+`disconnected` signal that ends an established session while `streamManagementState()` is
+`NoStreamManagement` -/
 def classify (own : String) (s : St) : Op → Ev
   | .connected sm _ => if sm = .resumed then .other else .clear
-  | .disconnected smEnabled _ => if smEnabled then .other else .clear
+  | .disconnected smEnabled _ => if s.inSession && !smEnabled then .clear else .other
   | .response k sender ok items => if delivered own s k sender && ok then .full items else .other
   | .rosterIq type sender _ items => if authorised own sender && type = .set then .push items else .other
   | .presence sender type status =>
@@ -285,9 +295,42 @@ def specPres (evs : List Ev) (b r : String) : Option String :=
 /-- **`isRosterReceived()` as prescribed**: a full roster was received in the current session -/
 def specReceived (evs : List Ev) : Bool := (afterLast Ev.isClear evs).any Ev.isFull
 
+/-! ### the session chain, as a function of the history alone -/
+
+/-- where the history stands: `inSession` — the latest session event was a connect; `smChain` — since the
+latest connect that was not a resumption, no established session has ended while stream management was off
+(so the session begun by that connect can still be the one a later resumption continues) -/
+structure Chain where
+  inSession : Bool := false
+  smChain : Bool := true
+  deriving DecidableEq, Repr
+
+def Chain.step (c : Chain) : Op → Chain
+  | .connected sm _ =>
+    if sm = .resumed then { c with inSession := true } else { inSession := true, smChain := true }
+  | .disconnected smEnabled _ =>
+    { inSession := false, smChain := c.smChain && !(c.inSession && !smEnabled) }
+  | _ => c
+
+def chainFrom (c : Chain) (ops : List Op) : Chain := ops.foldl Chain.step c
+def chainOf (ops : List Op) : Chain := chainFrom {} ops
+
 /-- is the client inside an established session after this history? -/
-def connectedNow (ops : List Op) : Bool :=
-  ops.foldl (fun c op => match op with | .connected _ _ => true | .disconnected _ _ => false | _ => c) false
+def connectedNow (ops : List Op) : Bool := (chainOf ops).inSession
+
+def resumesOkFrom (c : Chain) : List Op → Bool
+  | [] => true
+  | op :: rest =>
+    (match op with
+     | .connected .resumed _ => c.smChain
+     | _ => true) && resumesOkFrom (c.step op) rest
+
+/-- **Environment assumption "a resumption continues the latest session, and that session had stream
+management"**: at every resumed connect of the history, no established session has ended without stream
+management since the latest connect that was not a resumption.  (XEP-0198: only a session with SM enabled
+can be resumed, and a server resumes the client's latest session.)  Characterised by
+`resumesContinueSmSession_iff` in `Qx/Props/C12.lean`. -/
+def resumesContinueSmSession (ops : List Op) : Bool := resumesOkFrom {} ops
 
 /-- a roster IQ the sender check rejects -/
 def Op.isForeign (own : String) : Op → Bool
